@@ -18,17 +18,24 @@ class JobResult(dict):
 
 
 def cvc5_recheck(solver, negated_ob, timeout_ms=8000):
-    """re-decide `assertions /\ not ob` with cvc5 (independent solver).
+    """re-decide `assertions and not ob` with cvc5 (independent solver).
     -> 'unsat' | 'sat' | 'unknown' | 'unavailable'"""
     try:
         import cvc5
     except Exception:
         return "unavailable"
+    # export under exactly one push/pop pair: the solver's frame stack mirrors Engine.dec
+    solver.push()
     try:
-        solver.push()
         solver.add(negated_ob)
         txt = "(set-logic ALL)\n" + solver.to_smt2()
+    except Exception:
+        txt = None
+    finally:
         solver.pop()
+    if txt is None:
+        return "unknown"
+    try:
         slv = cvc5.Solver()
         slv.setOption("tlimit-per", str(timeout_ms))
         p = cvc5.InputParser(slv)
@@ -44,10 +51,6 @@ def cvc5_recheck(solver, negated_ob, timeout_ms=8000):
                 res = out
         return res
     except Exception:
-        try:
-            solver.pop()
-        except Exception:
-            pass
         return "unknown"
 
 
